@@ -596,7 +596,10 @@ HARNESSES = [
                                 [{"mode": "exclude", "arg": ex, "db": 4, "stable": st} for ex in (["DELTA"], ["BETA", "DELTA"], ["ALPHA"]) for st in _subsets(4) if len(st) <= 3][::5] +
                                 [{"mode": "majority", "arg": None, "db": 4, "stable": st} for st in _subsets(4) if len(st) <= 3][::4] +
                                 [{"mode": "exclude", "arg": ex, "db": 4, "stable": st} for ex in (["DELTA"], ["BETA", "DELTA"]) for st in
-                                 (["DELTA", "DELTA"], ["DELTA", "ALPHA", "DELTA"], ["BETA", "DELTA", "DELTA"], ["ALPHA", "DELTA", "BETA", "DELTA"], ["BETA", "BETA", "DELTA"])]}),
+                                 (["DELTA", "DELTA"], ["DELTA", "ALPHA", "DELTA"], ["BETA", "DELTA", "DELTA"], ["ALPHA", "DELTA", "BETA", "DELTA"], ["BETA", "BETA", "DELTA"])] +
+                                # the excluded phase(s) given as a bare name or a tuple instead of a list
+                                [{"mode": "exclude", "arg": ex, "db": 4, "stable": st} for ex in ("DELTA", "ALPHA", ("BETA", "DELTA"), ("GAMMA",)) for st in
+                                 (["DELTA"], ["ALPHA", "DELTA"], ["GAMMA", "BETA", "DELTA"], ["DELTA", "ALPHA", "DELTA"], ["ALPHA", "GAMMA"])]}),
     Harness("C17.e2e", e2e, functions=_F3 + _F2 + _F1, assumptions=_A2 + ["the point (x, T) is concrete (the cache key truncates to integers); backend values are arbitrary"],
             stubs=["therm.getEq -> workspace stub: MU, composition sets (phase_record.phase_name, NP, X) = uninterpreted functions of (x, T), alphabetical element order; "
                    "stable phases positive amounts normalised to 1, positive X", "kawin.diffusion.DiffusionParameters.mobility_from_composition_set -> uninterpreted positive values per (phase, element, point)",
